@@ -23,16 +23,23 @@ theorem guard_value : ∀ e : Exc, isA G e .ValueError = true →
 theorem guard_version : ∀ e : Exc, isA G e .ProtocolVersionError = true → caught G G.versionGate e = true := by
   intro e; cases e <;> decide
 
-theorem drain_ok (l : List Step) (h : ∀ s ∈ l, s = .ok ∨ s = .raises .IPCError) : drain G l = .ok := by
+theorem drainWith_ok (skips ends : List Exc) (h1 : caught G ends .IPCError = false) (h2 : caught G skips .IPCError = true)
+    (l : List Step) (h : ∀ s ∈ l, s = .ok ∨ s = .raises .IPCError) : drainWith G skips ends l = .ok := by
   induction l with
   | nil => rfl
   | cons s r ih =>
     have hr := ih (fun x hx => h x (by simp [hx]))
     rcases h s (by simp) with rfl | rfl
-    · simpa [drain] using hr
-    · have h1 : caught G G.drainEnds .IPCError = false := by decide
-      have h2 : caught G G.drainSkips .IPCError = true := by decide
-      simp [drain, h1, h2, hr]
+    · simpa [drainWith] using hr
+    · simp [drainWith, h1, h2, hr]
+
+theorem drain_ok (l : List Step) (h : ∀ s ∈ l, s = .ok ∨ s = .raises .IPCError) : drain G l = .ok :=
+  drainWith_ok _ _ (by decide) (by decide) l h
+
+/-- the drain the first read's IPCError handler performs (`_drain_stream` or its inline loop) -/
+theorem firstDrain_ok (l : List Step) (h : ∀ s ∈ l, s = .ok ∨ s = .raises .IPCError) :
+    drainWith G G.firstDrainSkips G.firstDrainEnds l = .ok :=
+  drainWith_ok _ _ (by decide) (by decide) l h
 
 theorem maybeAttach_ok (rq : Req)
     (h : ∀ e, rq.attach = .raises e → isA G e .OSError = true ∨ isA G e .ValueError = true) :
@@ -123,7 +130,7 @@ theorem readRequest_wf (rq : Req) (wf : Spec.WellFramed rq) (sane : Spec.Primiti
     simp [f1, f4]
   · rw [hf]
     right; left
-    simp [f2, f3, f5, hd]
+    simp [f2, f3, f5, firstDrain_ok rq.laterReads hl]
 
 theorem serveOne_wf (rq : Req) (wf : Spec.WellFramed rq) (sane : Spec.PrimitivesSane G rq) :
     Spec.AnsweredAndServing (serveOne G rq) := by
@@ -181,21 +188,25 @@ theorem serveOne_wf (rq : Req) (wf : Spec.WellFramed rq) (sane : Spec.Primitives
     simp only [r2]
     exact ⟨rfl, hcons⟩
 
-theorem drain_noblock (T : Tables) (l : List Step) (h : ∀ s ∈ l, s ≠ .blocks) : drain T l ≠ .blocks := by
+theorem drainWith_noblock (T : Tables) (skips ends : List Exc) (l : List Step) (h : ∀ s ∈ l, s ≠ .blocks) :
+    drainWith T skips ends l ≠ .blocks := by
   induction l with
-  | nil => simp [drain]
+  | nil => simp [drainWith]
   | cons s r ih =>
     have hr := ih (fun x hx => h x (by simp [hx]))
     cases s with
-    | ok => simpa [drain] using hr
+    | ok => simpa [drainWith] using hr
     | blocks => exact absurd rfl (h .blocks (by simp))
     | raises e =>
-      simp only [drain]
+      simp only [drainWith]
       split
       · simp
       · split
         · exact hr
         · simp
+
+theorem drain_noblock (T : Tables) (l : List Step) (h : ∀ s ∈ l, s ≠ .blocks) : drain T l ≠ .blocks :=
+  drainWith_noblock T _ _ l h
 
 theorem maybeAttach_noblock (T : Tables) (rq : Req) : ∀ x, maybeAttach T rq = x → x ≠ .blocks := by
   intro x hx
@@ -258,8 +269,8 @@ theorem readRequest_noblock (T : Tables) (rq : Req) (h : Spec.NoBlocks rq) : rea
     | blocks => exact absurd h2 hf
     | raises e =>
       simp only
-      cases hdd : drain T rq.laterReads with
-      | blocks => exact absurd hdd hd
+      cases hdd : drainWith T T.firstDrainSkips T.firstDrainEnds rq.laterReads with
+      | blocks => exact absurd hdd (drainWith_noblock T _ _ rq.laterReads hl)
       | ok => (repeat' split) <;> simp_all
       | raises e' => (repeat' split) <;> simp_all
     | ok =>
@@ -285,8 +296,12 @@ theorem tables_guarded :
       caught Tables.gen Tables.gen.pointerGuard e = true ∧ caught Tables.gen Tables.gen.releaseGuard e = true) ∧
     caught Tables.gen Tables.gen.traceDecode .UnicodeDecodeError = true ∧
     caught Tables.gen Tables.gen.firstRead .StopIteration = true ∧ caught Tables.gen Tables.gen.firstRead .IPCError = true ∧
-    Tables.gen.firstReadDrains = true ∧ caught Tables.gen Tables.gen.drainSkips .IPCError = true :=
-  ⟨Aux.guard_exception, Aux.guard_attach, Aux.guard_value, by decide, by decide, by decide, by decide, by decide⟩
+    Tables.gen.firstReadDrains = true ∧ caught Tables.gen Tables.gen.drainSkips .IPCError = true ∧
+    caught Tables.gen Tables.gen.firstDrainSkips .IPCError = true ∧
+    caught Tables.gen Tables.gen.firstDrainEnds .StopIteration = true ∧
+    caught Tables.gen Tables.gen.firstDrainEnds .IPCError = false :=
+  ⟨Aux.guard_exception, Aux.guard_attach, Aux.guard_value, by decide, by decide, by decide, by decide, by decide, by decide,
+   by decide, by decide⟩
 
 /-- `Spec.WellFramedAnswered`: every well-framed request — any metadata, columns, rows, segment names, pointer values;
 any failure of a primitive within the classes it can raise — is answered, the loop goes on, the stream is consumed -/
